@@ -622,6 +622,65 @@ theorem attestation_binds {L : Lib} {env : Env} {policy : Option Policy} {ts : T
     exact ⟨v, hA, h.1, by rw [← hid]; exact h.2⟩
 
 
+/-! ### node registration: which policy the verifier ends up with (tee.go ApplyDefaultConstraints) -/
+
+/-- For EVERY shape of the descriptor's constraints that leaves the PCS policy unset (nil policy,
+the empty object `policy: {}`, a policy with only the IAS part), with the PCS feature on, the
+policy that reaches `pcs.Quote.Verify` is the consensus default's PCS policy: never the built-in
+fallback, never anything weaker. -/
+theorem default_applied_when_unset {fs : Features} {sc : Option QPolicy} {d : QPolicy}
+    (hf : fs.pcs = true) (hd : fs.defaultPolicy = some d) (hu : descriptorSetsPcs sc = false) :
+    effectivePcsPolicy fs sc = d.pcs := by
+  unfold effectivePcsPolicy applyDefaults
+  rw [hd]
+  cases sc with
+  | none => simp [hf]
+  | some p =>
+    have hp : p.pcs = none := by
+      cases h : p.pcs with
+      | none => rfl
+      | some x => simp [descriptorSetsPcs, h] at hu
+    by_cases hi : p.ias.isNone <;> simp [hf, hi, hp]
+
+/-- A PCS policy set by the descriptor is the one used. -/
+theorem explicit_policy_kept {fs : Features} {p : QPolicy} {x : Policy} (hx : p.pcs = some x) :
+    effectivePcsPolicy fs (some p) = some x := by
+  unfold effectivePcsPolicy applyDefaults
+  cases hd : fs.defaultPolicy with
+  | none => simp [hx]
+  | some d => by_cases hi : p.ias.isNone <;> simp [hi, hx]
+
+/-- The PCS result is independent of the IAS part of the descriptor's policy (the three steps of
+`ApplyDefaultConstraints` are independent). -/
+theorem pcs_default_independent_of_ias (fs : Features) (i i' : Option Nat) (x : Option Policy) :
+    effectivePcsPolicy fs (some { ias := i, pcs := x }) =
+      effectivePcsPolicy fs (some { ias := i', pcs := x }) := by
+  unfold effectivePcsPolicy applyDefaults
+  cases fs.defaultPolicy with
+  | none => rfl
+  | some d =>
+    by_cases h1 : i.isNone <;> by_cases h2 : i'.isNone <;> by_cases h3 : (x.isNone && fs.pcs) <;>
+      simp [h1, h2, h3]
+
+/-- Hence: a quote that the consensus default PCS policy rejects is never accepted at node
+registration when the descriptor did not set a PCS policy of its own. -/
+theorem default_policy_enforced {L : Lib} {env : Env} {fs : Features} {sc : Option QPolicy}
+    {d : QPolicy} {ts : Time} {q : Quote} {tcb : Option Bundle} {allowed : List (Bytes × Bytes)}
+    {rakHash : Bytes}
+    (hf : fs.pcs = true) (hd : fs.defaultPolicy = some d) (hu : descriptorSetsPcs sc = false)
+    (hrej : ∀ v, verify L env d.pcs ts q tcb ≠ .ok v) :
+    registrationOK L env fs sc ts q tcb allowed rakHash = false := by
+  unfold registrationOK attestationOK
+  rw [default_applied_when_unset hf hd hu]
+  split
+  · rfl
+  · rename_i v hv
+    exact absurd hv (hrej v)
+
+/-- Non-vacuity: the empty-but-non-nil policy under a disabling default. -/
+example : effectivePcsPolicy { pcs := true, defaultPolicy := some { ias := some 2, pcs := some { defaultPolicy with disabled := true } } }
+    (some { ias := none, pcs := none }) = some { defaultPolicy with disabled := true } := by decide
+
 /-! ### regenerated binding facts (tools/gen/pcsfacts.go → Generated/PcsFacts.lean) -/
 
 set_option maxRecDepth 100000 in
@@ -652,6 +711,12 @@ set_option maxRecDepth 100000 in
 /-- Fields classified as unbound are read nowhere; fields classified as bound are read. -/
 theorem field_roles_consistent :
     Expect.expectedFields.all (fun e => Expect.roleConsistent e.2.2.1 e.2.2.2) = true := by
+  decide
+
+/-- The default-filling steps of ApplyDefaultConstraints in the current source are the three
+independent `if`s that `applyDefaults` models. -/
+theorem generated_apply_defaults_match :
+    Generated.PcsFacts.applyDefaultConstraints = Expect.expectedApplyDefaults := by
   decide
 
 /-! ### non-vacuity: a concrete accepted quote in a concrete ideal world -/
